@@ -3,6 +3,7 @@
 from __future__ import annotations
 
 from asyncio import FIRST_COMPLETED, ensure_future, wait
+from collections.abc import AsyncGenerator
 from typing import TYPE_CHECKING, Any, Protocol, cast
 
 from ...error import GraphQLError, located_error
@@ -26,7 +27,7 @@ from .work_queue import (
 )
 
 if TYPE_CHECKING:
-    from collections.abc import AsyncGenerator, Sequence
+    from collections.abc import Awaitable, Callable, Sequence
 
     from ...pyutils import AbortSignal
     from ..types import IncrementalResult
@@ -76,6 +77,53 @@ class _SubsequentResultContext:
         self.has_next = True
 
 
+class _SubsequentResults(
+    AsyncGenerator[SubsequentIncrementalExecutionResult, None]
+):
+    """The stream of subsequent incremental results.
+
+    This wraps the async generator producing the subsequent results, so that
+    the incremental work is cancelled and cleaned up also when the stream is
+    closed before it has been started, in which case the ``finally`` clause
+    of the wrapped generator would never be run.
+    """
+
+    __slots__ = "_cleanup", "_generator", "_started"
+
+    def __init__(
+        self,
+        generator: AsyncGenerator[SubsequentIncrementalExecutionResult, None],
+        cleanup: Callable[[], Awaitable[None]],
+    ) -> None:
+        self._generator = generator
+        self._cleanup = cleanup
+        self._started = False
+
+    def __anext__(self) -> Awaitable[SubsequentIncrementalExecutionResult]:
+        self._started = True
+        return self._generator.__anext__()
+
+    def asend(self, value: None) -> Awaitable[SubsequentIncrementalExecutionResult]:
+        self._started = True
+        return self._generator.asend(value)
+
+    def athrow(
+        self, *args: Any, **kwargs: Any
+    ) -> Awaitable[SubsequentIncrementalExecutionResult]:
+        self._started = True
+        return self._generator.athrow(*args, **kwargs)
+
+    async def aclose(self) -> None:
+        if not self._started:
+            self._started = True
+            try:
+                await self._cleanup()
+            finally:
+                await self._generator.aclose()
+        else:
+            await self._generator.aclose()
+
+
 class IncrementalPublisher:
     """Publish incremental results.
 
@@ -116,9 +164,22 @@ class IncrementalPublisher:
             has_next=True,
         )
 
+        async def cleanup() -> None:
+            await self._cleanup(work_queue, context)
+
         return ExperimentalIncrementalExecutionResults(
-            initial_result, self._subscribe(work_queue, context)
+            initial_result,
+            _SubsequentResults(self._subscribe(work_queue, context), cleanup),
         )
+
+    @staticmethod
+    async def _cleanup(
+        work_queue: WorkQueue, context: IncrementalPublisherContext
+    ) -> None:
+        """Cancel the pending work and signal that the work has finished."""
+        await work_queue.cancel()
+        await context.cancel_incremental_work()
+        context.run_async_work_finished_hook()
 
     def _ensure_id(self, node: DeliveryGroup | ItemStream) -> str:
         """Get the id assigned to the given node, assigning one if needed."""
@@ -186,9 +247,7 @@ class IncrementalPublisher:
                 if not subsequent_result.has_next:
                     return
         finally:
-            await work_queue.cancel()
-            await context.cancel_incremental_work()
-            context.run_async_work_finished_hook()
+            await self._cleanup(work_queue, context)
 
     def _handle_batch(
         self, batch: Sequence[WorkQueueEvent]
